@@ -619,6 +619,9 @@ func callSSA(i *interpreter, caller *frame, callpos token.Pos, fn *ssa.Function,
 			if i.inInit {
 				return zeroResults(fn.Signature)
 			}
+			if os.Getenv("GOSYM_DEBUG") != "" {
+				fmt.Fprintln(os.Stderr, "no code for", name, stackOf(caller))
+			}
 			theEx.unsupported("no code for function: " + name)
 		}
 	} else if fn.Blocks == nil {
@@ -626,6 +629,10 @@ func callSSA(i *interpreter, caller *frame, callpos token.Pos, fn *ssa.Function,
 	}
 	if ext := externalsMethods[fn.String()]; ext != nil {
 		return ext(fr, args)
+	}
+	if schedPointFuncs[fn.String()] {
+		// section boundary of the strand under test: other clients may act here
+		theEx.env("lock")
 	}
 
 	if fn.TypeParams().Len() > 0 && len(fn.TypeArgs()) == 0 {
